@@ -56,6 +56,12 @@ int32_t psInitPubKey(psPool_t *pool, psPubKey_t *key, uint8_t type)
         psEccInitKey(pool, &key->key.ecc, NULL);
         break;
 # endif
+# ifdef USE_DH
+    case PS_DH:
+        /* psClearPubKey clears it whether or not a key was generated. */
+        Memset(&key->key.dh, 0x0, sizeof(key->key.dh));
+        break;
+# endif
     default:
         break;
     }
